@@ -7,7 +7,6 @@ import (
 
 	"go.uber.org/zap"
 	"go.uber.org/zap/zapcore"
-	"go.uber.org/zap/zapgrpc"
 	"go.uber.org/zap/zapio"
 	"go.uber.org/zap/zaptest/observer"
 )
@@ -95,16 +94,22 @@ func (n *c05node) size() (nodes, leaves, wrappers int) {
 }
 
 type c05op struct {
-	kind int // 0 set, 1 call, 2 enabled, 3 level, 4 V, 5 With
-	a    int
-	v    int8 // set value / level
-	fam  int
-	n    int
+	kind  int // 0 set, 1 call, 2 enabled, 3 level, 4 V, 5 derive a logger, 6 text update, 7 handle read, 8 select a logger
+	a     int
+	v     int8 // set value / level / IncreaseLevel threshold
+	fam   int
+	n     int    // V argument / derive kind / logger number
+	route int    // kind 6: see c05_upd.go
+	hk    int    // kinds 0, 6, 7: the kind of handle used
+	text  string // kind 6
 }
 
 func (o c05op) sx() SX {
 	switch o.kind {
 	case 0:
+		if o.hk != 0 {
+			return L(I(0), I(o.a), I(int(o.v)), I(o.hk))
+		}
 		return L(I(0), I(o.a), I(int(o.v)))
 	case 1:
 		return L(I(1), I(o.fam), I(int(o.v)))
@@ -114,8 +119,20 @@ func (o c05op) sx() SX {
 		return L(I(3))
 	case 4:
 		return L(I(4), I(o.n))
+	case 6:
+		return L(I(6), I(o.a), I(o.route), I(o.hk), Str(o.text))
+	case 7:
+		return L(I(7), I(o.a), I(o.hk))
+	case 8:
+		return L(I(8), I(o.n))
 	}
-	return L(I(5))
+	switch o.n {
+	case 0:
+		return L(I(5))
+	case 5:
+		return L(I(5), I(5), I(int(o.v)))
+	}
+	return L(I(5), I(o.n))
 }
 
 type c05case struct {
@@ -123,6 +140,7 @@ type c05case struct {
 	cells []int8
 	obs   []int // leaf ids that are observer cores
 	ops   []c05op
+	mode  int // 1: the root logger is built by the live zap.Config of cell 0 (see c05_upd.go viaConfig)
 }
 
 // ---------- running a case on the real zap ----------
@@ -268,8 +286,8 @@ func c05newEnv(cs *c05case) *c05env {
 
 // one log call through family fam at level l; named says whether to prefer the method named
 // after the level over the Log* variant taking it as a parameter
-func c05call(env *c05env, lg *zap.Logger, fam int, l zapcore.Level, named bool) {
-	s := lg.Sugar()
+func c05call(env *c05env, dl *c05lg, fam int, l zapcore.Level, named bool) {
+	lg, s := dl.lg, dl.s
 	valid := l >= zapcore.DebugLevel && l <= zapcore.FatalLevel
 	idx := int(l) + 1
 	switch fam {
@@ -318,21 +336,19 @@ func c05call(env *c05env, lg *zap.Logger, fam int, l zapcore.Level, named bool) 
 		}
 		std.Print("m")
 	case 8:
-		g := zapgrpc.NewLogger(lg)
+		g := dl.g
 		if named {
 			[]func(...interface{}){g.Info, g.Warning, g.Error}[int(l)](c05str{env})
 		} else {
 			[]func(string, ...interface{}){g.Infof, g.Warningf, g.Errorf}[int(l)]("%v", c05str{env})
 		}
 	case 9:
-		g := zapgrpc.NewLogger(lg)
+		g := dl.g
 		[]func(...interface{}){g.Infoln, g.Warningln, g.Errorln}[int(l)](c05str{env})
 	case 10, 11:
-		var g *zapgrpc.Logger
+		g := dl.g
 		if l == zapcore.DebugLevel {
-			g = zapgrpc.NewLogger(lg, zapgrpc.WithDebug())
-		} else {
-			g = zapgrpc.NewLogger(lg)
+			g = dl.gd
 		}
 		fatal := l == zapcore.FatalLevel
 		switch {
@@ -367,19 +383,40 @@ func c05famLevels(fam int) []int8 {
 
 func c05run(cs *c05case) (obs SX, delivered, silent int) {
 	env := c05newEnv(cs)
+	hs := c05newHandles(env) // the other handles on the cells exist before the cores do
 	core := env.build(cs.tree)
-	lg := zap.New(core, zap.WithFatalHook(c05term{}), zap.WithPanicHook(c05term{}), zap.Development())
+	opts := []zap.Option{zap.WithFatalHook(c05term{}), zap.WithPanicHook(c05term{}), zap.Development(), zap.ErrorOutput(zapcore.AddSync(io.Discard))}
+	var root *zap.Logger
+	if cs.viaConfig() {
+		root = hs.buildViaConfig(core, opts)
+	} else {
+		root = zap.New(core, opts...)
+	}
+	// every logger derived so far with its sugar and gRPC front ends; cur is the one the calls go to
+	loggers := []*c05lg{c05newLg(root)}
+	cur := loggers[0]
 	outs := make([]SX, 0, len(cs.ops))
 	for i, o := range cs.ops {
+		lg := cur.lg
 		switch o.kind {
 		case 0:
-			env.cells[o.a].SetLevel(zapcore.Level(o.v))
+			hs.handle(o.a, o.hk).SetLevel(zapcore.Level(o.v))
+			outs = append(outs, L())
+		case 6:
+			ok, after := hs.update(o.a, o.route, o.hk, o.text)
+			outs = append(outs, L(Bool(ok), I(int(after)), I(int(env.cells[o.a].Level()))))
+		case 7:
+			outs = append(outs, I(int(hs.handle(o.a, o.hk).Level())))
+		case 8:
+			if o.n < len(loggers) {
+				cur = loggers[o.n]
+			}
 			outs = append(outs, L())
 		case 1:
 			env.events = env.events[:0]
 			env.samp = env.samp[:0]
 			env.evals = 0
-			c05call(env, lg, o.fam, zapcore.Level(o.v), (i+o.fam)%2 == 0)
+			c05call(env, cur, o.fam, zapcore.Level(o.v), (i+o.fam)%2 == 0)
 			evs := make([]SX, len(env.events))
 			for k, e := range env.events {
 				evs[k] = L(I(e.kind), I(e.id))
@@ -409,9 +446,10 @@ func c05run(cs *c05case) (obs SX, delivered, silent int) {
 		case 3:
 			outs = append(outs, L(I(int(lg.Level())), I(int(zapcore.LevelOf(lg.Core())))))
 		case 4:
-			outs = append(outs, Bool(zapgrpc.NewLogger(lg).V(o.n)))
+			outs = append(outs, Bool(cur.g.V(o.n)))
 		case 5:
-			lg = lg.With(zap.Int("k", i))
+			cur = c05newLg(c05derive(lg, o.n, i, zapcore.Level(o.v)))
+			loggers = append(loggers, cur)
 			outs = append(outs, L())
 		}
 	}
@@ -425,7 +463,7 @@ func c05emit(c *Ctx, cs *c05case, class string) {
 		}
 	}()
 	obs, delivered, silent := c05run(cs)
-	nodes, leaves, wrappers := cs.tree.size()
+	nodes, leaves, wrappers := cs.shownTree().size()
 	nt := "0"
 	if leaves >= 2 && wrappers >= 1 && delivered > 0 && silent > 0 {
 		nt = "1"
@@ -445,6 +483,9 @@ func c05input(cs *c05case) SX {
 	ops := make([]SX, len(cs.ops))
 	for i, o := range cs.ops {
 		ops[i] = o.sx()
+	}
+	if cs.viaConfig() {
+		return L(cs.shownTree().sx(), L(cells...), L(obs...), L(ops...), I(1))
 	}
 	return L(cs.tree.sx(), L(cells...), L(obs...), L(ops...))
 }
@@ -817,6 +858,7 @@ func c05directed(c *Ctx) {
 func c05(c *Ctx) {
 	c05directed(c)
 	c05directedSamplers(c)
+	c05directedUpdates(c)
 	// Fork: NewRNG's streams for consecutive seeds are shifted copies of each other
 	r := NewRNG(c.Seed).Fork()
 	nSweep, nHist := 300, 4500
@@ -846,6 +888,7 @@ func c05(c *Ctx) {
 		t := g.tree(g.r.Range(1, 5))
 		nops := g.r.Range(5, 60)
 		var ops, calls []c05op
+		nlg := 1
 		for i := 0; i < nops; i++ {
 			x := g.r.Intn(100)
 			if len(calls) > 0 && g.r.Chance(20) {
@@ -855,21 +898,33 @@ func c05(c *Ctx) {
 			}
 			switch {
 			case x < 18 && g.ncells > 0:
-				ops = append(ops, c05op{kind: 0, a: g.r.Intn(g.ncells), v: g.level()})
+				// SetLevel or a text by any route, through any kind of handle
+				ops = append(ops, g.updateOp(g.r.Intn(g.ncells)))
+			case x < 21 && g.ncells > 0:
+				ops = append(ops, c05op{kind: 7, a: g.r.Intn(g.ncells), hk: g.r.Intn(4)})
 			case x < 70:
 				ops = append(ops, g.callOp())
 				calls = append(calls, ops[len(ops)-1])
 			case x < 82:
 				ops = append(ops, c05op{kind: 2, v: g.level()})
-			case x < 90:
+			case x < 89:
 				ops = append(ops, c05op{kind: 3})
-			case x < 96:
+			case x < 93:
 				ops = append(ops, c05op{kind: 4, n: g.r.Range(-1, 5)})
+			case x < 97:
+				// a new logger derived from the current one
+				o := c05op{kind: 5, n: g.r.Intn(6)}
+				if o.n == 5 {
+					o.v = int8(g.r.Range(-1, 6))
+				}
+				ops = append(ops, o)
+				nlg++
 			default:
-				ops = append(ops, c05op{kind: 5})
+				// back to a logger derived earlier
+				ops = append(ops, c05op{kind: 8, n: g.r.Intn(nlg)})
 			}
 		}
-		c05emit(c, &c05case{tree: t, cells: g.cells, obs: g.obs, ops: ops}, "hist")
+		c05emit(c, &c05case{tree: t, cells: g.cells, obs: g.obs, ops: ops, mode: g.r.Intn(2)}, "hist")
 	}
 }
 
